@@ -389,7 +389,7 @@ func (c09) Run(t *testing.T, tape *core.Tape, rcx *RunCtx) *core.Result {
 	// supply orientation for the direct entry; carriers for GoldenGate
 	direct := tape.Chance(25)
 	var parts []c09Part
-	var given []c09Frag
+	var given, supplied []c09Frag
 	if direct {
 		sc.Entry = "CircularLigate"
 		for _, f := range frags {
@@ -403,6 +403,7 @@ func (c09) Run(t *testing.T, tape *core.Tape, rcx *RunCtx) *core.Result {
 	} else {
 		sc.Entry = "GoldenGate"
 		i := 0
+		var partFrags [][]c09Frag
 		for i < len(frags) {
 			n := 1
 			if i+1 < len(frags) && tape.Chance(10) {
@@ -421,19 +422,48 @@ func (c09) Run(t *testing.T, tape *core.Tape, rcx *RunCtx) *core.Result {
 				res.Count("probe_flipped_fragment", 1)
 			}
 			parts = append(parts, p)
+			// the fragments as the digestion will hand them to the ligation: on the other
+			// strand when the carrier was flipped
+			var pf []c09Frag
+			for _, f := range frags[i : i+n] {
+				if strings.Contains(p.Desc, "flipped") {
+					f = c09Frag{F: rc(f.R), S: rc(f.S), R: rc(f.F), Role: f.Role}
+				}
+				pf = append(pf, f)
+			}
+			partFrags = append(partFrags, pf)
 			i += n
 		}
 		given = frags
 		if len(parts) > 0 && tape.Chance(6) {
 			// the very same part supplied twice
-			parts = append(parts, parts[tape.Draw(len(parts))])
+			k := tape.Draw(len(parts))
+			parts = append(parts, parts[k])
+			partFrags = append(partFrags, partFrags[k])
 			res.Count("probe_same_part_supplied_twice", 1)
 		}
+		for _, pf := range partFrags {
+			supplied = append(supplied, pf...)
+		}
+	}
+	if direct {
+		supplied = given
 	}
 	sc.Frags = given
 	sc.Parts = parts
-	// independent enumeration: cross-check of the design, and the budget
-	enum, partial, capped, work := c09Enumerate(given)
+	// Independent enumeration: cross-check of the design, and the size of the search. The
+	// size is taken over the fragments in the orientation in which they are supplied: a
+	// seed on the other strand walks the pool in mirror image, and a palindromic overhang
+	// (a decoy may have one) lets a mirror walk turn round and run through the whole ring
+	// again, so the same pool can need thirty times more partial assemblies flipped than
+	// as designed (found by the thorough tier, DESIGN 6.2).
+	enum, partial, capped, work := c09Enumerate(supplied)
+	if capped && !freePool {
+		res.Count("pool_too_large_skipped", 1)
+		res.LogHash = "skipped"
+		return res
+	}
+	partial += 3 * len(parts) // what else the digestion cuts out of a carrier (backbones) seeds a dead end each
 	if freePool {
 		if capped {
 			// too many partial assemblies to enumerate: not a usable scenario
